@@ -68,7 +68,7 @@ func checkC02(c *Ctx) {
 			n++
 			vp := pathOf(mu.Value)
 			g := guarded(f, in, Atom{vp + ".Valid", true})
-			src := strings.Contains(vp, "range(r.decoys[darkDecoyAddr.String()]") || strings.Contains(vp, "r.decoys[darkDecoyAddr.String()]")
+			src := strings.Contains(vp, "range("+P(f, 0)+".decoys["+P(f, 1)+".String()]") || strings.Contains(vp, P(f, 0)+".decoys["+P(f, 1)+".String()]")
 			r.Check(g && src, "C02.1", "getRegistrations: a registration is copied out only if its own Valid flag is set, from the requested phantom's map", in.Pos(), fnName(f), "guarded by "+firstN(vp, 60)+".Valid",
 				"registrations that are not (yet) validated, or that belong to another phantom address, become visible to connection matching: a client can open a tunnel on a registration whose covert/liveness checks have not passed, or a tag replayed against another phantom is accepted")
 			// key preserved
@@ -143,7 +143,7 @@ func checkC02(c *Ctx) {
 	if h := c.fn("C02.3", "cmd/application", "connManager", "handleNewTCPConn"); h != nil {
 		for _, ci := range callsIn(h, func(_ string, cc *ssa.CallCommon) bool { return cc.IsInvoke() && cc.Method.Name() == "WrapConnection" }) {
 			a := ci.Common().Args[2]
-			r.Check(pathOf(a) == "originalDstIP", "C02.3", "handleNewTCPConn: WrapConnection is given the connection's original destination", ci.Pos(), fnName(h), pathOf(a),
+			r.Check(len(h.Params) == 4 && a == ssa.Value(h.Params[3]), "C02.3", "handleNewTCPConn: WrapConnection is given the connection's original destination", ci.Pos(), fnName(h), pathOf(a),
 				"transports are asked to match against an address other than the connection's original destination")
 		}
 	}
@@ -169,7 +169,7 @@ func checkC02(c *Ctx) {
 					return
 				}
 				rp := pathOf(ret.Results[0])
-				okKey := strings.HasSuffix(rp, "[data.String()[:32]]#0") && strings.Contains(rp, ".GetRegistrations(originalDst)")
+				okKey := strings.HasSuffix(rp, "["+P(f, 1)+".String()[:32]]#0") && strings.Contains(rp, ".GetRegistrations("+P(f, 3)+")")
 				g := guarded(f, ret, Atom{strings.TrimSuffix(rp, "#0") + "#1", true})
 				r.Check(okKey && g, "C02.4", "min: returns the registration stored under the first 32 presented bytes, only if found", ret.Pos(), fnName(f), firstN(rp, 100),
 					"the min transport returns a registration that is not the map element under the presented tag (or without the found test): a connection is matched without proving knowledge of the secret")
@@ -270,7 +270,7 @@ func checkC02(c *Ctx) {
 			if ret, ok := in.(*ssa.Return); ok && len(ret.Results) == 2 {
 				if cst, isC := ret.Results[1].(*ssa.Const); isC && cst.Value == nil {
 					rp := pathOf(ret.Results[0])
-					if strings.Contains(rp, "rm.GetRegistrations(originalDst)[string(t.TagObfuscator.TryReveal(obfuscatedID, ") && guarded(f, ret, Atom{strings.TrimSuffix(rp, "#0") + "#1", true}) {
+					if strings.Contains(rp, P(f, 2)+".GetRegistrations("+P(f, 3)+")[string("+P(f, 0)+".TagObfuscator.TryReveal("+P(f, 1)+", ") && guarded(f, ret, Atom{strings.TrimSuffix(rp, "#0") + "#1", true}) {
 						okk = true
 					}
 				}
